@@ -38,7 +38,19 @@ RULE = ("SPD systems A = Z^T Z (+ R) + k I, n = 1..8, integer or quarter entries
         "fix_constraint step) through fnnls_cholesky (cold / production warm start / masks), reconstruction_positive_only_from and "
         "aa.Inversion (identity-mapping mapper; left-right symmetric Imaging on Rectangular meshes, corpus seeds); linear_obj_list orders "
         "fm, fmf, ffm, mfm, fmm, mf, fmfm, m with both forced lists non-empty (mock and Rectangular mappers). Cases with a decision on a "
-        "tie are evaluated specification-only (KSpec), never dropped. Non-trivial = the unconstrained solution has at least one negative and one positive entry (the active set "
+        "tie are evaluated specification-only (KSpec), never dropped. Phase 4 streams: (i) rare active-set paths built deliberately -- >= 3 "
+        "consecutive iterations in which one parameter enters and a different one leaves, followed by further iterations (2-d `fan` of columns with "
+        "geometrically falling norms closing in on the data direction, optionally a weakly coupled second block; n = 6..25; plus the corpus systems "
+        "swap_*.json found offline in random correlated / PSF-like / low-rank families, conjugated by random permutations), selected by an independent "
+        "float reference run of the active-set method, for the cold and the production warm start, through fnnls_cholesky, "
+        "reconstruction_positive_only_from (explicit and shared-default settings) and aa.Inversion (identity mapping matrix; also as the system left after "
+        "removing forced edge parameters); (ii) larger systems n = 9..25 (Gram / correlated / PSF-like / low-rank / banded), specification only; "
+        "(iii) A * 2^(+-12), b * 2^(-10, 10, 20) scalings; (iv) histories on every solver case: arguments fingerprinted before/after, the call repeated "
+        "through the same array objects with two neighbour systems solved in between (their outputs go through the certificate too), the system "
+        "passed as a Fortran-ordered / strided-view / read-only / integer-dtype array, omitted P_initial and omitted settings (shared default objects); "
+        "on every Inversion: .reconstruction read twice, curvature_reg_matrix / data_vector / settings fingerprinted, a second Inversion built from the "
+        "same linear objects and the same settings object with negated data (and, for settings read from general.yaml, with use_positive_only_solver "
+        "flipped in the pushed configuration). Non-trivial = the unconstrained solution has at least one negative and one positive entry (the active set "
         "is neither empty nor full) or the case is an Inversion; distinct = distinct JSON input.")
 TRUSTED = ["hand-written Gallina model coq/Model/C05.v (active-set loops of fnnls.py, wrappers of inversion_util.py / abstract.py), tied to "
            "/repo by this correspondence run: implementation output vs exact rational model output, |diff| <= 1e-9 max(1,|model|), "
@@ -48,6 +60,9 @@ TRUSTED = ["hand-written Gallina model coq/Model/C05.v (active-set loops of fnnl
            "(Model/C05Chol.v) and proved to preserve U^T U = A[P_inorder, P_inorder]; the contract is also asserted numerically on every call "
            "the implementation makes during the run, and a sample of the calls is replayed in Coq (KChol cases)",
            "Python-side exact mirror (fractions) used only to measure decision margins; never used to decide agreement",
+           "Python-side float reference run of the active-set method (ref_path) used only to SELECT inputs with a rare path shape and to tally path "
+           "shapes; a sys.setprofile hook that reads the locals no_update / max_repetitions of fnnls_cholesky at its return, for the evidence "
+           "only (implementation_loop_exit_tally); neither decides agreement",
            "doubles: systems are small integers / quarters; comparisons under tolerance; where a decision lies within 1e-6 of its threshold only the "
            "specification (KKT certificate, tolerance 1e-8 max(1,|b|)) is evaluated on the implementation's output"]
 ASSUMPTIONS = ["real arithmetic (no rounding); theorems over R", "termination of the active-set loops is not proved (explicit fuel = the code's "
@@ -55,7 +70,7 @@ ASSUMPTIONS = ["real arithmetic (no rounding); theorems over R", "termination of
 
 EPS = 2.2204e-16
 BAND = Fraction(1, 10 ** 6)
-STATS = {"chol_contract_calls": 0, "chol_contract_max_residual": 0.0, "solver_runs": 0, "runs_with_prune_step": 0,
+STATS = {"chol_contract_calls": 0, "chol_contract_max_residual": 0.0, "solver_runs": 0, "runs_with_prune_step": 0, "runs_with_2plus_prune_rounds": 0,
          "runs_with_inner_fix_step": 0, "runs_with_2plus_inner_fix_steps": 0, "runs_with_multi_delete_step_exact": 0, "outer_iterations": 0,
          # measured on the implementation (wrapper around the choldeleteindexes that fnnls.py calls)
          "chol_cases_in_coq": 0, "chol_calls_too_deep_for_coq": 0, "impl_solver_runs_watched": 0, "impl_delete_calls": 0, "impl_delete_calls_2plus": 0, "impl_runs_deleting_2plus_in_one_step": 0,
@@ -63,10 +78,11 @@ STATS = {"chol_contract_calls": 0, "chol_contract_max_residual": 0.0, "solver_ru
          "glue_cases_nonmapper_before_mapper": 0, "glue_cases_nonmapper_before_mapper_with_forced_edge_and_zero_lists": 0,
          "glue_..._of_which_rectangular_mappers": 0, "glue_..._of_which_mock_mappers": 0,
          # shapes of the active-set path according to the reference run (ref_path), over every solver case of the run
-         "ref_path": {"runs": 0, "runs_with_3plus_consecutive_swap_iterations": 0, "runs_with_4plus_consecutive_swap_iterations": 0,
+         "ref_path": {"runs": 0, "runs_not_finished_by_the_reference_run": 0, "runs_with_3plus_consecutive_swap_iterations": 0, "runs_with_3plus_consecutive_swap_iterations_followed_by_more": 0, "runs_with_4plus_consecutive_swap_iterations": 0,
                       "runs_with_3plus_consecutive_non_growing_iterations": 0, "runs_with_more_than_10_outer_iterations": 0,
                       "runs_where_a_removed_parameter_re_enters": 0, "max_consecutive_swap_iterations": 0, "max_outer_iterations": 0},
          "mirror_exits_through_no_update_break": 0,
+         "impl_exit": {"observed": 0, "through_the_no_update_break": 0, "raised": 0, "not_observable_locals_renamed": 0},
          "history": {"second_evaluations_same_arrays": 0, "neighbour_systems_between_evaluations": 0, "argument_fingerprints": 0,
                      "input_kind_variants": {}, "second_inversions_same_objects": 0, "second_inversions_config_flipped": 0,
                      "default_settings_calls": 0}}
@@ -77,6 +93,7 @@ def note(d, reason): d[reason] = d.get(reason, 0) + 1
 def tally(m):
     STATS["solver_runs"] += 1; STATS["outer_iterations"] += m.n_outer
     if m.n_prune: STATS["runs_with_prune_step"] += 1
+    if m.n_prune >= 2: STATS["runs_with_2plus_prune_rounds"] += 1
     if m.n_inner: STATS["runs_with_inner_fix_step"] += 1
     if m.n_inner >= 2: STATS["runs_with_2plus_inner_fix_steps"] += 1
     if m.n_multi: STATS["runs_with_multi_delete_step_exact"] += 1
@@ -87,12 +104,12 @@ def extra_evidence():
             "cholesky_contract_calls": STATS["chol_contract_calls"], "cholesky_update_calls_checked_in_coq": STATS["chol_cases_in_coq"],
             "cholesky_delete_calls_not_replayed_in_coq_more_than_3_rotations": STATS["chol_calls_too_deep_for_coq"],
             "cholesky_contract_max_residual": STATS["chol_contract_max_residual"],
-            "branch_tally": {k: STATS[k] for k in ("solver_runs", "runs_with_prune_step", "runs_with_inner_fix_step",
+            "branch_tally": {k: STATS[k] for k in ("solver_runs", "runs_with_prune_step", "runs_with_2plus_prune_rounds", "runs_with_inner_fix_step",
                                                    "runs_with_2plus_inner_fix_steps", "runs_with_multi_delete_step_exact", "outer_iterations")},
             "implementation_delete_tally": {k: STATS[k] for k in STATS if k.startswith("impl_")},
             "glue_order_tally": {k: STATS[k] for k in STATS if k.startswith("glue_")},
             "reference_path_tally": dict(STATS["ref_path"]), "mirror_exits_through_no_update_break": STATS["mirror_exits_through_no_update_break"],
-            "history_tally": dict(STATS["history"])}
+            "history_tally": dict(STATS["history"]), "implementation_loop_exit_tally": dict(STATS["impl_exit"])}
 
 # --------------------------------------------------------------------------------------------- exact mirror (margins only)
 def gauss(A, b):
@@ -236,7 +253,7 @@ def ref_path(A, b, pinit=None):
                 if inner > 500: return None, path
             d = s.copy(); w = b - A @ d
             path.append((j, [int(i) for i in np.where(P0 & ~P)[0]], bool(P[j])))
-            if len(path) > 1000: return None, path
+            if len(path) > 200: return None, path
     except np.linalg.LinAlgError:
         return None, path
     return d, path
@@ -248,6 +265,17 @@ def swap_run(path):
         if kept and len(rem) == 1: cur += 1; best = max(best, cur)
         else: cur = 0
     return best
+
+def swaps_then_more(path, k=3):
+    """longest run of consecutive swap iterations that is FOLLOWED by at least one more outer iteration (the state after the run is not
+    yet optimal: leaving the loop there -- a stall test that is too coarse -- returns a non-KKT vector); 0 if shorter than k"""
+    best = cur = 0
+    for t, (j, rem, kept) in enumerate(path):
+        if kept and len(rem) == 1:
+            cur += 1
+            if t < len(path) - 1: best = max(best, cur)
+        else: cur = 0
+    return best if best >= k else 0
 
 def nogrow_run(path):
     """longest run of consecutive outer iterations at whose end |P| has not grown"""
@@ -269,9 +297,11 @@ def reentries(path):
 def tally_path(A, b, pinit):
     d, path = ref_path(flm(A), np.array(fl(b)), pinit)
     R = STATS["ref_path"]
+    if d is None: R["runs_not_finished_by_the_reference_run"] += 1; return 0
     R["runs"] += 1
     sr = swap_run(path); ng = nogrow_run(path)
     if sr >= 3: R["runs_with_3plus_consecutive_swap_iterations"] += 1
+    if swaps_then_more(path): R["runs_with_3plus_consecutive_swap_iterations_followed_by_more"] += 1
     if sr >= 4: R["runs_with_4plus_consecutive_swap_iterations"] += 1
     if ng >= 3: R["runs_with_3plus_consecutive_non_growing_iterations"] += 1
     if len(path) > 10: R["runs_with_more_than_10_outer_iterations"] += 1
@@ -337,7 +367,8 @@ def fan_system(rng, n):
     return A, b
 
 def swap_hits(A, b):
-    """(longest swap run with the cold start, with the production warm start) according to the reference run; None if unusable"""
+    """(longest swap run that is followed by a further iteration: with the cold start, with the production warm start) according to the
+    reference run; None if the system is unusable (cond > 5e4)"""
     An = flm(A); bn = np.array(fl(b))
     c = np.linalg.cond(An)
     if not np.isfinite(c) or c > 5e4: return None
@@ -347,7 +378,7 @@ def swap_hits(A, b):
     for pin in (None, u > 0):
         if pin is not None and not pin.any(): out.append(0); continue
         d, path = ref_path(An, bn, pin)
-        out.append(swap_run(path) if d is not None else 0)
+        out.append(swaps_then_more(path) if d is not None else 0)
     return out
 
 CORPUS_DIR = os.path.join(os.path.dirname(os.path.dirname(os.path.abspath(__file__))), "replays", "C05", "corpus")
@@ -372,7 +403,7 @@ def swap_systems(rng, count, nmax=25):
             pm = list(range(n)); rng.shuffle(pm)
             A = [[A0[pm[i]][pm[j]] for j in range(n)] for i in range(n)]; b = [b0[pm[i]] for i in range(n)]
         else:
-            A, b = fan_system(rng, rng.randint(6, 10) if rng.random() < 0.45 else rng.randint(11, nmax))
+            A, b = fan_system(rng, rng.randint(6, 10) if out % 5 < 2 else rng.randint(11, nmax))     # 2 in 5 small enough for the exact model run
         h = swap_hits(A, b)
         if h is None: continue
         want_warm = out % 2 == 1
@@ -443,6 +474,11 @@ class CholWatch:
         if kind == "ins": self.cases.append((kind, f"(KChol (KIns {self.tri(U0)} {cqv([frac(v) for v in arg])} {self.tri(out)}))"))
         else: self.cases.append((kind, f"(KChol (KDel {self.tri(U0)} {clist([cnat(i) for i in arg])} {self.tri(out)}))"))
     def coq_cases(self): return [c[1] for c in self.cases]
+    def exit_note(self):
+        """informational (goes into the replay file): the implementation left its main loop through the no_update break"""
+        if any(r and isinstance(nu, int) and isinstance(mx, int) and nu >= mx for nu, mx, r in getattr(self, "exits", [])):
+            return "note: fnnls_cholesky left its main loop through the `no_update >= max_repetitions` break (not through the loop condition)"
+        return None
     def __enter__(self):
         import autoarray.util.fnnls as fm
         self.fm = fm; self.orig = (fm.cholinsertlast, fm.choldeleteindexes)
@@ -468,6 +504,16 @@ class CholWatch:
                 watch.keep("del", U0, idx, S_, multi=len(idx) >= 2)
             return S_
         fm.cholinsertlast, fm.choldeleteindexes = ins, dele
+        # which way does the implementation leave its main loop?  (the locals of fnnls_cholesky at its return: evidence only -- the
+        # verdict is the KKT certificate on the returned vector, which is evaluated whatever the exit was)
+        self.exits = []
+        code = getattr(getattr(fm, "fnnls_cholesky", None), "__code__", None)
+        def prof(frame, event, arg):
+            if event == "return" and frame.f_code is code:
+                loc = frame.f_locals
+                watch.exits.append((loc.get("no_update"), loc.get("max_repetitions"), arg is not None))
+        import sys
+        self.old_prof = sys.getprofile(); sys.setprofile(prof)
         return self
     def note(self, U1, want):
         STATS["chol_contract_calls"] += 1
@@ -479,7 +525,16 @@ class CholWatch:
         if not (r <= 1e-8 * max(1.0, float(np.max(np.abs(want))) if want.size else 1.0)) or lower > 1e-9:
             self.bad = f"U^T U differs from A[P,P] by {r} (below-diagonal {lower})"
     def __exit__(self, *a):
+        import sys
+        sys.setprofile(self.old_prof)
         self.fm.cholinsertlast, self.fm.choldeleteindexes = self.orig
+        E = STATS["impl_exit"]
+        for nu, mx, returned in self.exits:
+            if not returned: E["raised"] += 1
+            elif isinstance(nu, int) and isinstance(mx, int):
+                E["observed"] += 1
+                if nu >= mx: E["through_the_no_update_break"] += 1
+            else: E["not_observable_locals_renamed"] += 1
         STATS["impl_solver_runs_watched"] += 1
         STATS["impl_delete_calls"] += len(self.deleted); STATS["impl_delete_calls_2plus"] += sum(1 for k in self.deleted if k >= 2)
         if any(k >= 2 for k in self.deleted): STATS["impl_runs_deleting_2plus_in_one_step"] += 1
@@ -662,7 +717,7 @@ def gen_inputs(tier, rng):
         yield {"op": "real", "seed": rng.randrange(10 ** 9), "w_tilde": i % 3 == 2, "pos": True, "pinit": i % 2 == 0, "force": True,
                "two": False, "mockreg": True, "order": ["fm", "fmf", "mfm", "ffm", "fmm"][i % 5], "edge_image": i % 4 != 3}
     # ---- rare active-set paths constructed deliberately: >= 3 consecutive iterations in which one parameter enters and another leaves
-    for i, (A, b, cold, warm) in enumerate(swap_systems(rng, 180 if big else 26)):
+    for i, (A, b, cold, warm) in enumerate(swap_systems(rng, 180 if big else 24)):
         n = len(b); large = n > 10
         wmask = [bool(x > 0) for x in np.linalg.solve(flm(A), np.array(fl(b)))]
         hits = ([False] if cold >= 3 else []) + ([True] if warm >= 3 else [])
@@ -690,7 +745,7 @@ def gen_inputs(tier, rng):
                        "settings": {"pos": True, "pinit": w_, "force": bool(extra), "edge_image": False, "source_zero": [],
                                     "via_config": i % 4 == 1, "check": True}}
     # ---- larger systems (n = 9..25), specification only: the KKT certificate is cheap, the exact model run is not attempted
-    for i in range(420 if big else 30):
+    for i in range(420 if big else 18):
         n = rng.randint(9, 25)
         A, fam = big_spd(rng, n); b = rand_rhs(rng, A, False, rng.choice(["noise", "noise", "noise", "zero", "sparse", "pos"]))
         wmask = [bool(x > 0) for x in np.linalg.solve(flm(A), np.array(fl(b)))]
@@ -962,19 +1017,19 @@ def neighbours(A, b):
 
 def solver_history(f, A, b, An, bn, raw, key, wrap, ill):
     """blind spots (a), (d), (f) for one solver call  f(A_array, b_array) -> raw outcome  that has just been made with (An, bn):
-       * neighbour systems are solved in between (one case in three) and their outputs are checked against the specification in Coq,
+       * neighbour systems are solved in between (one case in four) and their outputs are checked against the specification in Coq,
        * the call is repeated through the SAME array objects: same outcome,
        * the system is passed as another kind of array: same outcome, and that argument is left unmodified.
     `wrap(A, b, out)` prints the Coq case of an outcome.  Returns (detail or None, extra Coq cases)."""
     H = STATS["history"]; detail = None; extra = []
     if len(b) == 0: return None, []
-    if key % 3 == 0 and not ill:
+    if key % 4 == 0 and not ill and len(b) <= 10:       # (larger systems: the printed case alone costs seconds of Coq parsing)
         for A_, b_ in neighbours(A, b):
             r_ = out_vec(f(flm(A_), np.array(fl(b_))))
             extra.append(f"(KSpec {wrap(A_, b_, r_)})"); H["neighbour_systems_between_evaluations"] += 1
     raw2 = f(An, bn); H["second_evaluations_same_arrays"] += 1
     if not close_raw(raw2, raw, 1e-12): detail = "a second evaluation through the same array objects differs from the first one"
-    k, Av, bv = kind_variant(key // 3, An, bn)
+    k, Av, bv = kind_variant(key // 4, An, bn)
     A0 = Av.copy(); b0 = bv.copy()
     raw3 = f(Av, bv)
     H["input_kind_variants"][k] = H["input_kind_variants"].get(k, 0) + 1
@@ -1013,7 +1068,7 @@ def run_fnnls(aa, inp):
     detail = detail or d2
     if not same_arr(arg, arg0): detail = detail or "P_initial was modified in place"
     coq = spec_only(wrap(A, b, res), why)
-    return {"coq": coq, "extra_coq": cw.coq_cases() + extra, "out": show(res), "py_ok": (False if detail else None), "detail": detail,
+    return {"coq": coq, "extra_coq": cw.coq_cases() + extra, "out": show(res), "py_ok": (False if detail else None), "detail": detail or cw.exit_note(),
             "kind": "fnnls:" + st["kind"] + (":sym" if inp.get("sym") else "") + (":swap" if inp.get("swap") else "") + (":big" if inp.get("big") else "")
                     + (":scaled" if inp.get("scale") else "") + (":speconly" if why else ""),
             "nontrivial": bool(inp.get("big")) or nontrivial_system(A, b)}
@@ -1053,7 +1108,7 @@ def run_posonly(aa, inp):
     if fp0 is not None and dict(vars(settings)) != fp0: detail = detail or "the SettingsInversion object was modified by the call"
     if inp.get("via_config"): push_config(True, True, True)
     coq = spec_only(wrap(A, b, res), why)
-    return {"coq": coq, "extra_coq": cw.coq_cases() + extra, "out": show(res), "py_ok": (False if detail else None), "detail": detail,
+    return {"coq": coq, "extra_coq": cw.coq_cases() + extra, "out": show(res), "py_ok": (False if detail else None), "detail": detail or cw.exit_note(),
             "kind": "posonly:" + ("warm" if inp["uses_p"] else "cold") + (":sym" if inp.get("sym") else "") + (":swap" if inp.get("swap") else "")
                     + (":big" if inp.get("big") else "") + (":defaultsettings" if inp.get("via_config") else "") + (":speconly" if why else ""),
             "nontrivial": n > 0 and (bool(inp.get("big")) or nontrivial_system(A, b))}
@@ -1160,7 +1215,7 @@ def inversion_rows(aa, inv, objs_desc, st, kind, nontrivial=True, big=False, sec
     if not close_raw(call(lambda: inv.reconstruction), raw, 0.0): detail = detail or "a second read of .reconstruction differs from the first"
     H["second_evaluations_same_arrays"] += 1
     c_full = cond_of(A); c_kept = cond_of(Ak)
-    if second is not None and n and kept and max(c_full, c_kept) <= 1e5:
+    if second is not None and not big and n and kept and max(c_full, c_kept) <= 1e5:
         st2 = dict(st)
         if st.get("via_config"): st2["pos"] = not st["pos"]; H["second_inversions_config_flipped"] += 1
         A2, b2, res2 = second(st2); H["second_inversions_same_objects"] += 1
@@ -1184,7 +1239,7 @@ def inversion_rows(aa, inv, objs_desc, st, kind, nontrivial=True, big=False, sec
         # keys of the dictionaries are the linear objects, in order
         if list(rd.keys()) != list(inv.linear_obj_list) or list(md.keys()) != list(inv.linear_obj_list):
             py_ok = False; detail = "dictionary keys are not the linear objects in order"
-    return {"coq": coq, "extra_coq": extra, "out": out, "py_ok": py_ok, "detail": detail,
+    return {"coq": coq, "extra_coq": extra, "out": out, "py_ok": py_ok, "detail": detail or cw.exit_note(),
             "kind": kind + (":pos" if st["pos"] else ":posneg") + (":force" if st["pos"] and st["force"] else "")
                     + (":raise" if res[0] == "raise" else "") + (":speconly" if why else ""), "nontrivial": nontrivial}
 
